@@ -37,6 +37,8 @@ func (li LocInfo) sort(te *TypeEnv) string {
 		return "(Array Int (Array " + te.sortOf(li.Key) + " Bool))"
 	case "MV":
 		return "(Array Int (Array " + te.sortOf(li.Key) + " " + te.sortOf(li.Val) + "))"
+	case "SEEN": // ghost: keys a map range has produced so far
+		return "(Array " + te.sortOf(li.Key) + " Bool)"
 	}
 	panic("bad loc kind " + li.Kind)
 }
